@@ -185,9 +185,9 @@ fn sdd_cnf(ctx: &mut Ctx, rng: &mut Rng) {
     // a dtree-derived vtree only contains the variables that occur: every variable of
     // the CNF occurs, so the CNF is compilable under it
     let exp = clauses_tt(&cl, n);
-    rsdd::verif::set_unique_table_capacity(Some(*rng.pick(&[4usize, 64, 1024])));
+    crate::caps::set_unique(Some(*rng.pick(&[4usize, 64, 1024])));
     let builder = CompressionSddBuilder::new(vtree.clone());
-    rsdd::verif::set_unique_table_capacity(None);
+    crate::caps::set_unique(None);
     let b = &builder;
     let mut w = SddWalker::new(n);
     let r = b.compile_cnf(&cnf);
